@@ -75,6 +75,9 @@ func pick(tier string, quick, thorough int) int {
 	return quick
 }
 
+// ExtraParts are stand-alone enumerations that belong to a wx-based check (run after its portfolio).
+var ExtraParts = map[string]func(rp *runner.Report){}
+
 // Accepts holds the accept function of every wx-based check (for ad-hoc exploration).
 var Accepts = map[string]func(f *wx.Failure, lastKind string) bool{}
 
@@ -99,6 +102,9 @@ func wxCheck(prop string, quickS, thoroughS int, jobs func(tier string) []runner
 	}
 	Checks[prop] = func(rp *runner.Report) int {
 		rp.RunJobs(jobs(rp.Tier), runner.Budget(rp.Tier, quickS, thoroughS), accept)
+		if ExtraParts[prop] != nil {
+			ExtraParts[prop](rp)
+		}
 		if TinyParts[prop] != nil {
 			mergeTiny(rp)
 		}
@@ -310,6 +316,13 @@ func init() {
 		}
 	}, func(f *wx.Failure, _ string) bool { return true })
 
+	// C10 also names "exceeding the type limit": the registry enumeration of C16 (registration counts 0..limit+1)
+	ExtraParts["C10"] = func(rp *runner.Report) {
+		ev := c16Bijection(rp)
+		rp.Trans += ev
+		fmt.Printf("  type limit: %d registry look-ups around 0..limit+1 registrations (components and resources)\n", ev)
+	}
+
 	// ------------------------------------------------------------------ C11 events
 	wxCheck("C11", 90, 900, func(tier string) []runner.Job {
 		ev := func(c *sim.Cfg) wx.Scenario {
@@ -327,6 +340,8 @@ func init() {
 			job(ev(sim.CoreCfg("c11-core-k3", 3, 1, nil, fMove|fVal|fBNew|fBExch|fBRem|fQ|fReset, 0)), pick(tier, 5, 6), 2),
 			job(ev(sim.RelCfg("c11-rel-k4-1p-life", 0, 4, 1, 8, fBld|fMove|fRet|fBRem, 0)), pick(tier, 6, 8), 2),
 			job(ev(sim.RelCfg("c11-rel-r0-k3-single", 1, 3, 0, 8, fBld|fMove|fRel|fRet|fRelX|fBExch, 0)), pick(tier, 4, 6), 2),
+			// component IDs in the third and fourth mask word (event masks are computed with Mask.Xor/And)
+			job(ev(sim.CoreCfg("c11-core-k3-ids-130-195", 3, 8, []int{130, 0, 63, 0}, fMove|fBExch|fQ, 0)), pick(tier, 4, 5), 1),
 		}
 	}, acceptProps("C11"))
 }
